@@ -58,6 +58,9 @@ type solverSpec struct {
 
 var solvers = []solverSpec{
 	{"z3-new", func(t int, f string) []string { return []string{"z3-new", fmt.Sprintf("-T:%d", t), f} }},
+	{"z3-new/simplex", func(t int, f string) []string {
+		return []string{"z3-new", fmt.Sprintf("-T:%d", t), "smt.arith.solver=2", f}
+	}},
 	{"cvc5", func(t int, f string) []string {
 		return []string{"cvc5", fmt.Sprintf("--tlimit=%d", t*1000), "--full-saturate-quant", f}
 	}},
@@ -118,38 +121,84 @@ func (o *Obligation) solve(dir string, timeoutS int, thorough bool) {
 	o.SMTPath = path
 	var verdicts []string
 	final := ""
-	for _, s := range solvers {
-		v, out, secs := runSolver(s, path, timeoutS)
-		o.Secs += secs
-		verdicts = append(verdicts, s.name+"="+v)
-		if v == "sat" || v == "unsat" {
-			if final == "" {
-				final = v
-				o.Solver = s.name
-				if v == "sat" {
-					o.Model = map[string]string{}
-					if len(o.x.modelTerms) > 0 {
-						vals := parseGetValue(out)
-						for i, m := range o.x.modelTerms {
-							if i < len(vals) {
-								o.Model[m.Label] = vals[i]
-							}
-						}
-					} else {
-						for _, m := range reValue.FindAllStringSubmatch(out, -1) {
-							val := strings.ReplaceAll(strings.ReplaceAll(strings.ReplaceAll(m[2], "(", ""), ")", ""), " ", "")
-							o.Model[strings.Trim(m[1], "|")] = val
+	record := func(name, v, out string) bool {
+		verdicts = append(verdicts, name+"="+v)
+		if v != "sat" && v != "unsat" {
+			return false
+		}
+		if final == "" {
+			final = v
+			o.Solver = name
+			if v == "sat" {
+				o.Model = map[string]string{}
+				if len(o.x.modelTerms) > 0 {
+					vals := parseGetValue(out)
+					for i, m := range o.x.modelTerms {
+						if i < len(vals) {
+							o.Model[m.Label] = vals[i]
 						}
 					}
+				} else {
+					for _, m := range reValue.FindAllStringSubmatch(out, -1) {
+						val := strings.ReplaceAll(strings.ReplaceAll(strings.ReplaceAll(m[2], "(", ""), ")", ""), " ", "")
+						o.Model[strings.Trim(m[1], "|")] = val
+					}
 				}
-				o.Output = strings.TrimSpace(firstLines(out, 40))
-			} else if final != v {
-				o.Status = "failed"
-				o.Output = "SOLVER DISAGREEMENT: " + strings.Join(verdicts, " ")
+			}
+			o.Output = strings.TrimSpace(firstLines(out, 40))
+			return true
+		}
+		if final != v {
+			o.Status = "failed"
+			o.Output = "SOLVER DISAGREEMENT: " + strings.Join(verdicts, " ")
+		}
+		return true
+	}
+	if thorough {
+		for _, s := range solvers {
+			v, out, secs := runSolver(s, path, timeoutS)
+			o.Secs += secs
+			record(s.name, v, out)
+			if strings.HasPrefix(o.Output, "SOLVER DISAGREEMENT") {
 				return
 			}
-			if !thorough {
-				break
+		}
+	} else {
+		// quick tier: first a short attempt with the default configuration, then race the two z3
+		// arithmetic configurations, then the remaining solvers one after the other
+		v, out, secs := runSolver(solvers[0], path, 2)
+		o.Secs += secs
+		if !record(solvers[0].name, v, out) {
+			type res struct {
+				name, v, out string
+				secs         float64
+			}
+			ch := make(chan res, 2)
+			for _, s := range solvers[:2] {
+				s := s
+				go func() {
+					v, out, secs := runSolver(s, path, timeoutS)
+					ch <- res{s.name, v, out, secs}
+				}()
+			}
+			decided := false
+			for i := 0; i < 2; i++ {
+				r := <-ch
+				o.Secs += r.secs
+				if !decided && record(r.name, r.v, r.out) {
+					decided = true
+					// the other process keeps running until its own timeout; its answer is ignored
+					break
+				}
+			}
+			if !decided {
+				for _, s := range solvers[2:] {
+					v, out, secs := runSolver(s, path, timeoutS)
+					o.Secs += secs
+					if record(s.name, v, out) {
+						break
+					}
+				}
 			}
 		}
 	}
@@ -323,8 +372,8 @@ func solveBatch(obs []*Obligation, dir string, timeoutMS int) {
 	}
 	defer os.Remove(path)
 	hard := len(obs)*timeoutMS/1000 + 20
-	if hard > 180 {
-		hard = 180
+	if hard > 120 {
+		hard = 120
 	}
 	ctx, cancel := context.WithTimeout(context.Background(), time.Duration(hard)*time.Second)
 	defer cancel()
